@@ -409,7 +409,10 @@ func (p *TxProcessor) handleTx(tx *types.Transaction, header *types.Header, txIn
 		_, recipientAddr, restGas, vmErr = vmEnv.Create(sender, tx.Data(), restGas, tx.Amount())
 	case params.VoteTx:
 		candidateVoteEnv := NewCandidateVoteEnv(p.am, p.dm)
-		err = candidateVoteEnv.CallVoteTx(senderAddr, recipientAddr, initialSenderBalance)
+		// The votes which the old candidate holds from this voter were computed from the voter's balance at the beginning of the block, and ChangeVotesByBalance
+		// will add the votes of all balance changes since the beginning of the block to the new candidate. So the votes to move now are the ones of that balance,
+		// not of the balance before this transaction
+		err = candidateVoteEnv.CallVoteTx(senderAddr, recipientAddr, p.blockStartBalance(senderAddr, initialSenderBalance))
 
 	case params.RegisterTx:
 		candidateVoteEnv := NewCandidateVoteEnv(p.am, p.dm)
@@ -451,6 +454,18 @@ func (p *TxProcessor) handleTx(tx *types.Transaction, header *types.Header, txIn
 	gasUsed = gasLimit - restGas + subTxsGasUsed
 
 	return restGas, gasUsed, vmErr, err
+}
+
+// blockStartBalance returns the balance which the account had before the first transaction of the block changed it
+func (p *TxProcessor) blockStartBalance(addr common.Address, currentBalance *big.Int) *big.Int {
+	for _, changeLog := range p.am.GetChangeLogs() {
+		if changeLog.LogType == account.BalanceLog && changeLog.Address == addr {
+			if oldVal, ok := changeLog.OldVal.(big.Int); ok {
+				return new(big.Int).Set(&oldVal)
+			}
+		}
+	}
+	return currentBalance
 }
 
 func (p *TxProcessor) buyGas(gp *types.GasPool, tx *types.Transaction) error {
